@@ -435,7 +435,7 @@ fn c11_long(len: usize, pat: u32, rep: &mut Report) -> Option<String> {
 
 fn c11_line(tier: Tier) -> usize {
     if tier == Tier::Thorough {
-        13
+        15
     } else {
         9
     }
@@ -761,7 +761,7 @@ pub fn c12_engine() -> SimpleEngine {
 
 fn c20_line(tier: Tier) -> usize {
     if tier == Tier::Thorough {
-        13
+        15
     } else {
         9
     }
